@@ -42,6 +42,12 @@ theorem aligned_last {r : RebaseFacts} (hw : r.wf = true) (ha : r.aligned = true
   | none => simp [hl] at this
   | some p => exact ⟨p, rfl, by simpa [hl] using this, ha.1, ha.2⟩
 
+theorem noop_parts {r : RebaseFacts} (h : r.noop = true) :
+    r.pairs = [] ∧ r.inner = [] ∧ r.newChain.isEmpty = true ∧ r.newHead = r.onto ∧ r.orig ≠ r.newHead := by
+  simp only [RebaseFacts.noop, RebaseFacts.todoEmpty, Bool.and_eq_true, List.isEmpty_iff, beq_iff_eq, bne_iff_ne, ne_eq] at h
+  obtain ⟨⟨⟨⟨h1, h2⟩, h3⟩, h4⟩, h5⟩ := h
+  exact ⟨h1, h2, by simp [h3], h4, h5⟩
+
 /-- **C13 events (partial).** For every operation of the alphabet — commit, amend, rebase (plain, --onto,
     interactive; complete / stop / continue / skip / abort), cherry-pick (single / batch; stop / continue / abort /
     -n), reset, stash push / pop / apply, merge --squash, checkout / switch (plain, -f, -m, paths), pull (ff /
@@ -73,26 +79,44 @@ theorem events_equal_partial (sW sH : St) (op : Op) (h : stepOk sW sH op = true)
   | rebaseStop r =>
     have hs' : sH.side = {} := by simpa [sideOk] using hs
     have hwl : r.wlAtOrig = false := by simpa [Op.agree] using hag
-    simp only [hooks, fires, Op.backward, rebase_start sH r hs', wrapper, wrapperEffs]
+    simp only [hooks, fires, Op.backward, Op.heal, rebase_start sH r hs', wrapper, wrapperEffs]
     split <;> simp [canon, hwl]
   | rebase r =>
     have hs' : sH.side = {} := by simpa [sideOk] using hs
-    have hag' : r.aligned = true ∧ r.wlAtOrig = false := by simpa [Op.agree] using hag
-    obtain ⟨p, hp, hp1, hm1, hm2⟩ := aligned_last (by simpa [Op.wf] using hwf) hag'.1
-    simp only [hooks, fires, Op.backward, invokeAll_append, rebase_start sH r hs', wrapper, wrapperEffs]
-    rw [rebase_end _ r rfl p hp]
-    have hw : r.wf = true := by simpa [Op.wf] using hwf
-    simp only [RebaseFacts.wf, Bool.and_eq_true, bne_iff_ne, ne_eq, Bool.not_eq_true', beq_iff_eq] at hw
-    obtain ⟨⟨⟨⟨⟨h1, h2⟩, h3⟩, h4⟩, h5⟩, h6⟩ := hw
-    simp only [wrapperRebaseDone, h3, h4, h5, hp1, hm1, hm2, hag'.2]
-    split <;> simp [canon, canonEv]
+    have hwl : r.wlAtOrig = false := by
+      have : (r.aligned || r.noop) = true ∧ r.wlAtOrig = false := by simpa [Op.agree] using hag
+      exact this.2
+    by_cases hn : r.noop = true
+    · -- nothing to replay: Start logged, the (absent) working log renamed; the wrapper finds no new commits
+      obtain ⟨hp, hi, hnc, hon, hne⟩ := noop_parts hn
+      have hev : fires (.rebase r) = rebaseStartEvs r false true ++ rebaseEndEvs { r with pairs := [] } false := by
+        simp [fires, RebaseFacts.todoEmpty, hp, hi, rebaseEndEvs]
+      simp only [hooks, hev, Op.backward, Op.heal, rebase_noop sH r hs' hi, wrapper, wrapperEffs, wrapperRebaseDone, hnc]
+      split <;> simp [canon, hwl]
+    · have hw : r.wf = true := by
+        have : (r.wf || r.noop) = true := by simpa [Op.wf] using hwf
+        cases h : r.wf <;> simp_all
+      have hal : r.aligned = true := by
+        have : (r.aligned || r.noop) = true ∧ r.wlAtOrig = false := by simpa [Op.agree] using hag
+        cases h : r.aligned <;> simp_all
+      obtain ⟨p, hp, hp1, hm1, hm2⟩ := aligned_last hw hal
+      have hte : r.todoEmpty = false := by
+        cases hq : r.pairs with
+        | nil => simp [hq] at hp
+        | cons a b => simp [RebaseFacts.todoEmpty, hq]
+      simp only [hooks, fires, hte, Op.backward, Op.heal, invokeAll_append, rebase_start sH r hs', wrapper, wrapperEffs]
+      rw [rebase_end _ r rfl p hp]
+      simp only [RebaseFacts.wf, Bool.and_eq_true, bne_iff_ne, ne_eq, Bool.not_eq_true', beq_iff_eq] at hw
+      obtain ⟨⟨⟨⟨⟨h1, h2⟩, h3⟩, h4⟩, h5⟩, h6⟩ := hw
+      simp only [wrapperRebaseDone, h3, h4, h5, hp1, hm1, hm2, hwl]
+      split <;> simp [canon, canonEv]
   | rebaseContinue r =>
     have hs' : sH.side = { mask := true } := by simpa [sideOk] using hs
     have hag' : r.aligned = true ∧ r.wlAtOrig = false := by simpa [Op.agree] using hag
     obtain ⟨p, hp, hp1, hm1, hm2⟩ := aligned_last (by simpa [Op.wf] using hwf) hag'.1
     have hj' : hasActiveRebaseStart sW.journal.reverse = true ∧
         (findRebaseStart sW.journal.reverse).map (·.1) = some r.orig := by simpa [journalOk] using hj
-    simp only [hooks, fires, Op.backward, invokeAll_append]
+    simp only [hooks, fires, Op.backward, Op.heal, invokeAll_append]
     rw [invokeAll_rebase_inner _ _ _ _ _ (by simp) (by simp [hs']) (by simp [hs'])]
     rw [rebase_end _ r hs' p hp]
     have hw : r.wf = true := by simpa [Op.wf] using hwf
@@ -114,13 +138,24 @@ theorem events_equal_partial (sW sH : St) (op : Op) (h : stepOk sW sH op = true)
   | pullRebase r =>
     have hs' : sH.side = {} := by simpa [sideOk] using hs
     have hwl : r.wlAtOrig = false := by simpa [Op.agree] using hag
-    have hw : r.wf = true := by simpa [Op.wf] using hwf
-    have hw' := hw
-    simp only [RebaseFacts.wf, Bool.and_eq_true, bne_iff_ne, ne_eq, Bool.not_eq_true', beq_iff_eq] at hw'
-    obtain ⟨⟨⟨⟨⟨h1, h2⟩, h3⟩, h4⟩, h5⟩, h6⟩ := hw'
-    simp only [hooks, fires, Op.backward, invokeAll_append, pull_rebase_start sH r hs' h6, wrapper, wrapperEffs]
-    rw [pull_rebase_end _ r rfl h6 hw]
-    simp [h3, h4, h5, hwl, canon, canonEv]
+    by_cases hn : r.noop = true
+    · -- every local commit already upstream: the working log (absent) moves to the new head, nothing to map
+      obtain ⟨hp, hi, hnc, hon, hne⟩ := noop_parts hn
+      have hev : fires (.pullRebase r) = rebaseStartEvs r true true ++ rebaseEndEvs { r with pairs := [] } true := by
+        simp [fires, RebaseFacts.todoEmpty, hp, hi, rebaseEndEvs]
+      have hne' : r.orig ≠ r.onto := by rw [← hon]; exact hne
+      simp only [hooks, hev, Op.backward, Op.heal, pull_rebase_noop sH r hs' hi hne', wrapper, wrapperEffs, hnc]
+      simp [canon, hwl, hne]
+    · have hw : r.wf = true := by
+        have : (r.wf || r.noop) = true := by simpa [Op.wf] using hwf
+        cases h : r.wf <;> simp_all
+      have hw' := hw
+      simp only [RebaseFacts.wf, Bool.and_eq_true, bne_iff_ne, ne_eq, Bool.not_eq_true', beq_iff_eq] at hw'
+      obtain ⟨⟨⟨⟨⟨h1, h2⟩, h3⟩, h4⟩, h5⟩, h6⟩ := hw'
+      have hte : r.todoEmpty = false := by simp [RebaseFacts.todoEmpty, h6]
+      simp only [hooks, fires, hte, Op.backward, Op.heal, invokeAll_append, pull_rebase_start sH r hs', wrapper, wrapperEffs]
+      rw [pull_rebase_end _ r rfl h6 hw]
+      simp [h3, h4, h5, hwl, canon, canonEv]
   | cherryPick hd ps =>
     have hs' : sH.side = {} := by simpa [sideOk] using hs
     have hlen : ps.length = 1 := by simpa [Op.agree] using hag
@@ -178,6 +213,7 @@ theorem events_equal_partial (sW sH : St) (op : Op) (h : stepOk sW sH op = true)
   | pullFF o n wl =>
     have hs' : sH.side = {} := by simpa [sideOk] using hs
     cases wl <;> by_cases hon : o = n <;> hm_simp
+  | agentCheckpoint rb => hm_simp
 
 /-- non-vacuity of `stepOk`: concrete operations of every agreeing family satisfy it from the initial state -/
 def exRebase : RebaseFacts :=
@@ -210,11 +246,14 @@ theorem picks_side (multi : Bool) (ps : List (Sha × Sha)) (prev : Sha) (st : St
     by_cases hx : p.1 = p.2 <;> cases multi <;> hm_simp
 
 /-- operations after which the hook side state is expected to be empty: everything except a rebase that stops
-    (the mask stays on while it is in progress — `rebase_stop_masks`) and, wrongly, `rebase --abort` and a rebase
-    that rewrites nothing (`witness_abort_leaves_mask`, `witness_noop_rebase_leaves_mask`) -/
+    (the mask stays on while it is in progress — `rebase_stop_masks`), `rebase --abort` (no hook left to run:
+    `witness_abort_leaves_mask`; the next checkpoint, checkout or rewrite lifts it) and a checkpoint taken while a
+    rebase is stopped -/
 def Op.clears : Op → Bool
   | .rebaseStop _ | .rebaseAbort _ => false
-  | .rebase r | .rebaseContinue r | .pullRebase r => !r.pairs.isEmpty
+  | .rebase r | .pullRebase r => !r.pairs.isEmpty || r.noop
+  | .rebaseContinue r => !r.pairs.isEmpty
+  | .agentCheckpoint rb => !rb
   | _ => true
 
 /-- **C13 side state (partial).** The side-state files are empty after every operation that `clears`. -/
@@ -223,31 +262,49 @@ theorem side_state_cleared_partial (sH : St) (op : Op) (hs : sideOk sH.side op =
   cases op with
   | rebaseStop r => simp [Op.clears] at hc
   | rebaseAbort r => simp [Op.clears] at hc
+  | agentCheckpoint rb =>
+    have hrb : rb = false := by simpa [Op.clears] using hc
+    subst hrb
+    have hs' : sH.side = {} ∨ sH.side = { mask := true } := by simpa [sideOk] using hs
+    rcases hs' with hs' | hs' <;> hm_simp
   | rebase r =>
     have hs' : sH.side = {} := by simpa [sideOk] using hs
-    have hne : r.pairs.isEmpty = false := by simpa [Op.clears] using hc
-    cases hl : r.pairs.getLast? with
-    | none => cases hp : r.pairs <;> simp_all
-    | some p =>
-      simp only [hooks, fires, Op.backward, invokeAll_append, rebase_start sH r hs']
-      rw [rebase_end _ r rfl p hl]
+    by_cases hn : r.noop = true
+    · obtain ⟨hp, hi, hnc, hon, hne⟩ := noop_parts hn
+      have hev : fires (.rebase r) = rebaseStartEvs r false true ++ rebaseEndEvs { r with pairs := [] } false := by
+        simp [fires, RebaseFacts.todoEmpty, hp, hi, rebaseEndEvs]
+      simp only [hooks, hev, Op.backward, Op.heal, rebase_noop sH r hs' hi]
+    · have hne : r.pairs.isEmpty = false := by simpa [Op.clears, hn] using hc
+      have hte : r.todoEmpty = false := by simp [RebaseFacts.todoEmpty, hne]
+      cases hl : r.pairs.getLast? with
+      | none => cases hp : r.pairs <;> simp_all
+      | some p =>
+        simp only [hooks, fires, hte, Op.backward, Op.heal, invokeAll_append, rebase_start sH r hs']
+        rw [rebase_end _ r rfl p hl]
   | rebaseContinue r =>
     have hs' : sH.side = { mask := true } := by simpa [sideOk] using hs
     have hne : r.pairs.isEmpty = false := by simpa [Op.clears] using hc
     cases hl : r.pairs.getLast? with
     | none => cases hp : r.pairs <;> simp_all
     | some p =>
-      simp only [hooks, fires, Op.backward, invokeAll_append]
+      simp only [hooks, fires, Op.backward, Op.heal, invokeAll_append]
       rw [invokeAll_rebase_inner _ _ _ _ _ (by simp) (by simp [hs']) (by simp [hs'])]
       rw [rebase_end _ r hs' p hl]
   | pullRebase r =>
     have hs' : sH.side = {} := by simpa [sideOk] using hs
-    have hne : r.pairs.isEmpty = false := by simpa [Op.clears] using hc
-    simp only [hooks, fires, Op.backward, invokeAll_append, pull_rebase_start sH r hs' hne]
-    hm_simp
-    by_cases h1 : r.orig = r.newHead
-    · simp [h1]
-    · by_cases h2 : r.chain = [] ∨ r.newChain = [] <;> simp [h1, h2]
+    by_cases hn : r.noop = true
+    · obtain ⟨hp, hi, hnc, hon, hne⟩ := noop_parts hn
+      have hev : fires (.pullRebase r) = rebaseStartEvs r true true ++ rebaseEndEvs { r with pairs := [] } true := by
+        simp [fires, RebaseFacts.todoEmpty, hp, hi, rebaseEndEvs]
+      have hne' : r.orig ≠ r.onto := by rw [← hon]; exact hne
+      simp only [hooks, hev, Op.backward, Op.heal, pull_rebase_noop sH r hs' hi hne']
+    · have hne : r.pairs.isEmpty = false := by simpa [Op.clears, hn] using hc
+      have hte : r.todoEmpty = false := by simp [RebaseFacts.todoEmpty, hne]
+      simp only [hooks, fires, hte, Op.backward, Op.heal, invokeAll_append, pull_rebase_start sH r hs']
+      hm_simp
+      by_cases h1 : r.orig = r.newHead
+      · simp [h1]
+      · by_cases h2 : r.chain = [] ∨ r.newChain = [] <;> simp [h1, h2]
   | cherryPick hd ps =>
     have hs' : sH.side = {} := by simpa [sideOk] using hs
     exact picks_side _ ps hd sH hs'
@@ -306,7 +363,7 @@ theorem side_state_cleared_partial (sH : St) (op : Op) (hs : sideOk sH.side op =
 /-- while a rebase is stopped the mask is on and nothing else is set -/
 theorem rebase_stop_masks (sH : St) (r : RebaseFacts) (hs : sH.side = {}) :
     (hooks sH (.rebaseStop r)).1.side = { mask := true } := by
-  simp only [hooks, fires, Op.backward, rebase_start sH r hs]
+  simp only [hooks, fires, Op.backward, Op.heal, rebase_start sH r hs]
 
 /-- **witness (excluded region of `side_state_cleared`)**: `git rebase --abort` fires no hook that is still
     installed, so the mask — every managed hook except post-rewrite / post-checkout renamed away — stays on … -/
@@ -314,17 +371,48 @@ theorem witness_abort_leaves_mask (sH : St) (r : RebaseFacts) (hs : sH.side = { 
     (hooks sH (.rebaseAbort r)).1.side = { mask := true } := by
   hm_simp
 
-/-- … and the commit that follows reaches no managed hook at all: hooks mode records nothing where the wrapper
-    records the commit (replayed on the binary: the commit gets no note; known finding `modes-differ:rebase-abort`) -/
+/-- **regression (fix bdec53b6)**: … until the next `git-ai checkpoint` — the first thing an agent does before it
+    edits — whose entry point now restores stale masked hooks (checkout and rewrite did so before). -/
+theorem checkpoint_after_abort_restores (sH : St) (r : RebaseFacts) (hs : sH.side = { mask := true }) :
+    (hooks (hooks sH (.rebaseAbort r)).1 (.agentCheckpoint false)).1.side = {} := by
+  hm_simp
+
+/-- the extracted facts the two repairs rest on: the empty-todo fallback of the post-checkout arm is no longer
+    limited to `pull --rebase` and force-restores; the checkpoint entry point calls maybe_restore_stale_rebase_hooks -/
+theorem fix_tables :
+    HookTables.noopRestorePullOnly = false ∧ HookTables.noopRestoreForces = true ∧ checkpointRestores = true := by decide
+
+/-- **regression (was `witness_commit_after_abort`)**: conflict, `rebase --abort`, an agent edits (checkpoint), commit —
+    the sequence lies in the agreeing region and both modes record the commit -/
+theorem regression_commit_after_abort :
+    good St.init St.init [.rebaseStop exRebase, .rebaseAbort exRebase, .agentCheckpoint false, .commit (some 3) 9 false] = true ∧
+    canon (runH St.init [.rebaseStop exRebase, .rebaseAbort exRebase, .agentCheckpoint false, .commit (some 3) 9 false]).2 =
+      [.ev (.commit (some 3) 9)] ∧
+    canon (runW St.init [.rebaseStop exRebase, .rebaseAbort exRebase, .agentCheckpoint false, .commit (some 3) 9 false]).2 =
+      [.ev (.commit (some 3) 9)] := by decide
+
+/-- **witness (what is left of it)**: with no checkpoint, checkout or rewrite in between, the operation that follows the
+    abort reaches no managed hook — a commit by hand, or a reset (replayed on the binary: known finding
+    `modes-differ:rebase-abort+masked-op`) -/
 theorem witness_commit_after_abort :
     canon (runH St.init [.rebaseStop exRebase, .rebaseAbort exRebase, .commit (some 3) 9 false]).2 = [] ∧
     canon (runW St.init [.rebaseStop exRebase, .rebaseAbort exRebase, .commit (some 3) 9 false]).2 =
       [.ev (.commit (some 3) 9)] := by decide
+theorem witness_reset_after_abort :
+    canon (runH St.init [.rebaseStop exRebase, .rebaseAbort exRebase, .reset .soft 3 2 true true false]).2 = [] ∧
+    canon (runW St.init [.rebaseStop exRebase, .rebaseAbort exRebase, .reset .soft 3 2 true true false]).2 =
+      [.act (.reconstruct 2 3)] := by decide
 
-/-- a rebase for which git reports no rewritten commit (everything already upstream) fires no post-rewrite:
-    the mask stays on as well -/
-theorem witness_noop_rebase_leaves_mask :
-    (hooks St.init (.rebase { exRebase with pairs := [], newChain := [], chain := [] })).1.side = { mask := true } := by
+/-- a rebase in which git drops every commit as already upstream (empty todo, no post-rewrite) -/
+def exNoop : RebaseFacts :=
+  { exRebase with pairs := [], newChain := [], chain := [2, 3], inner := [], newHead := 5 }
+
+/-- **regression (fix 52b736f3; was `witness_noop_rebase_leaves_mask`)**: the checkout of the new base restores the
+    entry points also for a plain `git rebase`, so the operations that follow are seen (here a reset and a commit) -/
+theorem regression_noop_rebase_restores_mask :
+    (hooks St.init (.rebase exNoop)).1.side = {} ∧ (hooks St.init (.pullRebase exNoop)).1.side = {} ∧
+    good St.init St.init [.rebase exNoop, .reset .soft 5 4 true true false, .commit (some 4) 9 false] = true ∧
+    good St.init St.init [.pullRebase exNoop, .commit (some 5) 9 false] = true := by
   decide
 
 /-! ## 3. Sequences -/
@@ -350,10 +438,18 @@ theorem modes_equivalent_partial {Obs : Type} (f : Obs → Can → Obs) (o : Obs
 /-- operations that are one complete git command (nothing left in progress, nothing continued) -/
 def Op.complete : Op → Bool
   | .rebaseStop _ | .rebaseContinue _ | .rebaseAbort _ | .cherryPickStop .. | .cherryPickContinue .. | .cherryPickAbort _ => false
+  | .agentCheckpoint rb => !rb
   | _ => true
 
 theorem complete_clears {op : Op} (hc : op.complete = true) (hw : op.wf = true) : op.clears = true := by
-  cases op <;> simp_all [Op.complete, Op.clears, Op.wf, RebaseFacts.wf]
+  cases op with
+  | rebase r | pullRebase r =>
+    simp only [Op.wf, Bool.or_eq_true] at hw
+    rcases hw with hw | hw
+    · simp only [RebaseFacts.wf, Bool.and_eq_true, Bool.not_eq_true'] at hw
+      simp [Op.clears, hw.2]
+    · simp [Op.clears, hw]
+  | _ => simp_all [Op.complete, Op.clears, Op.wf, RebaseFacts.wf]
 
 /-- `good` follows from per-operation facts alone for sequences of complete commands: each is well-formed and
     inside the agreeing region. (The side-state invariant is carried by `side_state_cleared_partial`.) -/
@@ -363,7 +459,10 @@ theorem good_of_complete (ops : List Op) (sW sH : St) (hs : sH.side = {})
   | nil => rfl
   | cons op r ih =>
     obtain ⟨hc, hw, ha⟩ := h op (List.mem_cons_self)
-    have hso : sideOk sH.side op = true := by cases op <;> simp_all [sideOk, Op.complete]
+    have hso : sideOk sH.side op = true := by
+      cases op with
+      | agentCheckpoint rb => cases rb <;> simp_all [sideOk, Op.complete]
+      | _ => simp_all [sideOk, Op.complete]
     have hjo : journalOk sW.journal op = true := by cases op <;> simp_all [journalOk, Op.complete]
     simp only [good, stepOk, hw, ha, hso, hjo, Bool.and_self, Bool.true_and]
     exact ih _ _ (side_state_cleared_partial sH op hso (complete_clears hc hw))
@@ -543,8 +642,12 @@ theorem witness_stash_push_unrecorded :
 #print axioms side_state_cleared_partial
 #print axioms rebase_stop_masks
 #print axioms witness_abort_leaves_mask
+#print axioms checkpoint_after_abort_restores
+#print axioms fix_tables
+#print axioms regression_commit_after_abort
 #print axioms witness_commit_after_abort
-#print axioms witness_noop_rebase_leaves_mask
+#print axioms witness_reset_after_abort
+#print axioms regression_noop_rebase_restores_mask
 #print axioms good_canon
 #print axioms modes_equivalent_partial
 #print axioms good_of_complete
